@@ -145,6 +145,30 @@ func (e *recordHeaderError) Unwrap() error {
 	return e.err
 }
 
+// checkRecordFits tells whether a record with this header can be what is stored at the offset: the sizes must be a pair
+// a writer produces, and the payload must end inside the file.
+func (r *MMapReader) checkRecordFits(offset uint64, headerLen int, payloadSizeUncompressed uint64, payloadSizeCompressed uint64, recordNil bool) error {
+	err := checkRecordSizes(r.header, payloadSizeUncompressed, payloadSizeCompressed)
+	if err != nil {
+		return err
+	}
+
+	payloadSize := payloadSizeUncompressed
+	if r.header.compressor != nil {
+		payloadSize = payloadSizeCompressed
+	}
+	// nil records carry no payload, even if a compressed size was recorded in the header
+	if recordNil {
+		payloadSize = 0
+	}
+
+	payloadStart := offset + uint64(headerLen)
+	if payloadStart > r.Size() || payloadSize > r.Size()-payloadStart {
+		return fmt.Errorf("payload of %d bytes doesn't fit into the remaining %d bytes of the file: %w", payloadSize, r.Size()-min(payloadStart, r.Size()), io.ErrUnexpectedEOF)
+	}
+	return nil
+}
+
 func (r *MMapReader) ReadNextAt(offset uint64) ([]byte, error) {
 	if !r.open || r.closed {
 		return nil, fmt.Errorf("reader at '%s' was either not opened yet or is closed already", r.path)
@@ -179,6 +203,13 @@ func (r *MMapReader) ReadNextAt(offset uint64) ([]byte, error) {
 		// TODO(thomas): we can make this more efficient without the double allocation, we can simply read from the pooled buf
 		headerByteReader := newChecksumByteReader(bytes.NewReader(headerBufPooled[:numRead]), headerBufPooledCrc)
 		payloadSizeUncompressed, payloadSizeCompressed, recordNil, err := readRecordHeaderV4(headerByteReader)
+		if err != nil {
+			return nil, &recordHeaderError{fmt.Sprintf("failed reading record header at offset %d in mmap reader for '%s': %v", offset, r.path, err), err}
+		}
+
+		// SeekNext lands here for everything that looks like a marker, also inside a payload: the sizes are compared
+		// with what a writer produces and with what the file can hold before anything is allocated for them
+		err = r.checkRecordFits(offset, headerByteReader.Count(), payloadSizeUncompressed, payloadSizeCompressed, recordNil)
 		if err != nil {
 			return nil, &recordHeaderError{fmt.Sprintf("failed reading record header at offset %d in mmap reader for '%s': %v", offset, r.path, err), err}
 		}
